@@ -91,6 +91,7 @@ MonotoneIfPolIndep == (Ok /\ R.has.c04 /\ ~R.poldep =>
 ShiftEquivariant == (Ok /\ R.has.shift =>
                        /\ (Len(R.waves) > 0 => \A x \in Lines : R.sh.waves[x + 1][p] = Shift(W(x), R.sh.d))
                        /\ \A i \in 1..NS : Caps(i) => R.sh.port[i][p] = Shift(PortW(i), R.sh.d)) \/ Fail("C04", "ShiftEquivariant")
+\* (the scaled run uses the factor R.sc.f / R.sc.den, den a power of two, and reports times in units of 1/den)
 ScaleEquivariant == (Ok /\ R.has.scale =>
                        /\ (Len(R.waves) > 0 => \A x \in Lines : R.sc.waves[x + 1][p] = Scale(W(x), R.sc.f))
                        /\ \A i \in 1..NS : Caps(i) => R.sc.port[i][p] = Scale(PortW(i), R.sc.f)) \/ Fail("C04", "ScaleEquivariant")
